@@ -202,6 +202,7 @@ func runFileSink(rc *RunCtx, prop string, crash bool, faults bool) {
 	}
 
 	seqMode := prop == "C15"
+	hugeRun := prop == "C08" && tp.Choose(5, "huge-run") == 0 // every third event of this run is larger than 32 KiB
 	nWriters := 1 + tp.Choose(8, "nwriters")
 	if seqMode {
 		nWriters = 1
@@ -297,6 +298,11 @@ func runFileSink(rc *RunCtx, prop string, crash bool, faults bool) {
 				n := 1 + tp.Choose(200, "len")
 				if tp.Choose(3, "smallish") == 0 {
 					n = 1 + tp.Choose(30, "len-small")
+				}
+				if !seqMode && !faults && (tp.Choose(25, "huge") == 0 || (hugeRun && evID%3 == 1)) {
+					// larger than any buffer a copy loop might use: the event still reaches the file in one piece
+					n = 33000 + tp.Choose(70000, "len-huge")
+					simrt.Probe("fs.huge-event")
 				}
 				e := &fsEvent{ID: evID, Data: mkPayload(evID, n)}
 				if !seqMode && tp.Choose(12, "noformat") == 0 {
